@@ -148,6 +148,21 @@ func foreignToken(tok string) string {
 	return out
 }
 
+// the claims of tok signed RS256 by the RSA test key, with NO kid in the header
+func kidlessToken(tok string) string {
+	payload := parse(tok)
+	s, err := jose.NewSigner(jose.SigningKey{Algorithm: jose.RS256, Key: opfix.RSAKey()}, nil)
+	if err != nil || payload == nil {
+		return tok
+	}
+	obj, err := s.Sign(payload.UnsafePayloadWithoutVerification())
+	if err != nil {
+		return tok
+	}
+	out, _ := obj.CompactSerialize()
+	return out
+}
+
 func parse(tok string) *jose.JSONWebSignature {
 	jws, _ := jose.ParseSigned(tok, []jose.SignatureAlgorithm{jose.ES256, jose.RS256})
 	return jws
@@ -167,6 +182,10 @@ func raceChild() {
 	ob, _ := json.Marshal(other)
 	w.otherJWKS = string(ob)
 	foreign := foreignToken(t.id)
+	mixed := jose.JSONWebKeySet{Keys: []jose.JSONWebKey{other.Keys[0], {Key: &opfix.RSAKey().PublicKey, KeyID: "rsa-1", Algorithm: "RS256", Use: "sig"}}}
+	mb, _ := json.Marshal(mixed)
+	w.mixedJWKS = string(mb)
+	kidless := kidlessToken(t.id)
 
 	serve := func(i int) {
 		h, eps := w.instHandler(i)
@@ -223,12 +242,18 @@ func raceChild() {
 		ks := rp.NewRemoteKeySet(w.clients[2], opfix.Issuer+"/keys")
 		par(8, 40, func(g, it int) { ks.VerifySignature(bg, parse(t.id)) })
 	case 5: // a default provider serves requests while other providers are constructed with custom endpoints
-		newProvider(1, 2, nil, 0).run(w)
+		// (all from the caller's ONE issuer-function value, ONE *op.Config and ONE key set value)
+		newProviderCaps(1, 2, nil, 4, 7, false).run(w)
 		h, _ := w.instHandler(1)
 		par(4, 40, func(g, it int) {
 			if g == 0 {
 				st := opfix.NewStd()
-				op.NewProvider(provCfg(), st.AsStorage(true, true, true), op.StaticIssuer(opfix.Issuer), op.WithLogger(quiet),
+				more := []op.Option{op.WithAccessTokenKeySet(w.sharedKS)}
+				if it%2 == 0 {
+					more = append(more, op.WithAllowInsecure())
+				}
+				op.NewProvider(w.sharedCfg, st.AsStorage(true, true, true), w.issuerFns[0], more...)
+				op.NewProvider(w.sharedCfg, st.AsStorage(true, true, true), w.issuerFns[0], op.WithLogger(quiet),
 					op.WithCustomAuthEndpoint(op.NewEndpoint(fmt.Sprint("auth", it))), op.WithCustomTokenEndpoint(op.NewEndpoint(fmt.Sprint("tok", it))))
 				return
 			}
@@ -258,7 +283,7 @@ func raceChild() {
 			wg.Wait()
 		})
 	case 7: // ERROR PATHS of one remote key set: the JWKS endpoint fails, is unreachable, flaps, lacks the kid, is slow, answers garbage
-		for mode := int32(1); mode <= 6; mode++ {
+		for mode := int32(1); mode <= 7; mode++ {
 			for _, warm := range []bool{false, true} {
 				ks := rp.NewRemoteKeySet(w.clients[2], opfix.Issuer+"/keys")
 				w.jwksMode.Store(0)
@@ -267,7 +292,9 @@ func raceChild() {
 				}
 				w.jwksMode.Store(mode)
 				par(8, 12, func(g, it int) {
-					if (g+it)%3 == 0 {
+					if mode == 7 { // heterogeneous JWKS [EC, RSA], RS256 token WITHOUT kid: candidate search over the cached slice
+						ks.VerifySignature(bg, parse(kidless))
+					} else if (g+it)%3 == 0 {
 						ks.VerifySignature(bg, parse(foreign)) // unknown kid: forces a refresh
 					} else {
 						ks.VerifySignature(bg, parse(t.id))
